@@ -239,7 +239,12 @@ def gen_cases(ctx, fam, prec):
         else:
             choices = list(itertools.product(a1, a2))
         for x, y in choices:
-            for b in (rng.sample(B, nb) if nb < len(B) else B):
+            bs = rng.sample(B, nb) if nb < len(B) else B
+            if nb < len(B) and fam == "gssvx":
+                # the bases in which EVERY argument is an input (factors reused, both scalings in force): a pair of mutations is only
+                # a pair of violations where both arguments are looked at, so these always run
+                bs = bs + [b for b in B if b.get("fact") == 2 and b.get("equed") == 3 and b not in bs]
+            for b in bs:
                 r = dict(b); r.update(x); r.update(y); cases.append(("pair", (n1, n2), r))
     return cases
 
